@@ -254,7 +254,11 @@ pub fn merge_case(n: usize, mask: u32, enemies: &[(usize, usize)], hist: &[(usiz
                     model.class
                 ));
             }
-            // Invariants after every try_merge.
+            // Invariants after the try_merge that ends this history (every prefix is its own
+            // history, so this is 'after every try_merge').
+            if step + 1 != hist.len() {
+                continue;
+            }
             let groups: Vec<Vec<usize>> = m.subgraphs().map(|s| s.iter().map(|&k| idx(k)).collect()).collect();
             let flat: Vec<usize> = groups.iter().flatten().copied().collect();
             let mut sorted = flat.clone();
@@ -320,64 +324,71 @@ pub fn merge_case(n: usize, mask: u32, enemies: &[(usize, usize)], hist: &[(usiz
 }
 
 fn merge_section(thorough: bool, viols: &Viols) -> (Stats, Value) {
-    // (n, max enemies, [(alphabet incl. u==u?, len)])
-    let plans: Vec<(usize, usize, usize, usize)> = if thorough {
-        // (n, max_enemies, full-alphabet length, distinct-pair-only extra length)
-        vec![(2, 1, 4, 4), (3, 2, 4, 4), (4, 2, 3, 4)]
+    // per n: list of (max enemy-set size, history lengths over ALL ordered pairs incl. (u,u),
+    //                 extra history lengths over pairs u != v only)
+    type Sub = (usize, std::ops::RangeInclusive<usize>, std::ops::RangeInclusive<usize>);
+    let plans: Vec<(usize, Vec<Sub>)> = if thorough {
+        vec![
+            (2, vec![(1, 1..=4, 1..=0)]),
+            (3, vec![(2, 1..=4, 1..=0)]),
+            (4, vec![(2, 1..=3, 1..=0), (1, 1..=0, 4..=4)]),
+        ]
     } else {
-        vec![(2, 1, 3, 3), (3, 1, 3, 3), (4, 1, 2, 3)]
+        vec![(2, vec![(1, 1..=3, 1..=0)]), (3, vec![(1, 1..=3, 1..=0)]), (4, vec![(1, 1..=2, 3..=3)])]
     };
     let mut total = Stats::new();
     let mut info = vec![];
-    for (n, max_en, len_full, len_pairs) in plans {
+    for (n, subs) in plans {
         let dags = all_dags(n);
         let pairs: Vec<(usize, usize)> = (0..n).flat_map(|a| (a + 1..n).map(move |b| (a, b))).collect();
-        let enemy_sets: Vec<Vec<(usize, usize)>> = combi::subsets_upto(pairs.len(), max_en)
-            .into_iter()
-            .map(|s| s.into_iter().map(|i| pairs[i]).collect())
-            .collect();
         let full: Vec<(usize, usize)> = (0..n).flat_map(|a| (0..n).map(move |b| (a, b))).collect();
         let distinct: Vec<(usize, usize)> = full.iter().copied().filter(|&(a, b)| a != b).collect();
-        let mut hists: Vec<Vec<(usize, usize)>> = combi::sequences_upto(&full, len_full);
-        for l in len_full + 1..=len_pairs {
-            hists.extend(combi::sequences(&distinct, l));
-        }
-        hists.retain(|h| !h.is_empty());
-        info.push(json!({"n": n, "dags": dags.len(), "enemy_sets": enemy_sets.len(), "histories": hists.len(),
-                         "max_enemies": max_en, "len_all_ops": len_full, "len_distinct_pairs": len_pairs}));
-        let jobs: Vec<(u32, usize)> = dags.iter().flat_map(|&d| (0..enemy_sets.len()).map(move |e| (d, e))).collect();
-        let modes: &[bool] = if thorough { &[false, true] } else { &[false] };
-        let s = par_map(jobs.len(), ncpu().min(16), |j| {
-            let (mask, ei) = jobs[j];
-            let mut st = Stats::new();
-            st.nontrivial(&(n, mask, ei));
-            for h in &hists {
-                for &desc in modes {
-                    if desc && mask.count_ones() < 2 {
-                        continue;
-                    }
-                    st.eval();
-                    st.state();
-                    st.transition();
-                    st.trace();
-                    let (tag, v) = merge_case(n, mask, &enemy_sets[ei], h, desc);
-                    st.outcome(&tag);
-                    if j % 97 == 3 && h.len() == 3 && !desc {
-                        st.sample(|| json!({"section": "subgraph_merge", "n": n, "dag": edges_of(mask, n), "enemies": enemy_sets[ei], "history": h, "answers": tag}));
-                    }
-                    if let Some((key, what)) = v {
-                        viols.push(Viol {
-                            key,
-                            what,
-                            size: n * 1000 + h.len() * 100 + mask.count_ones() as usize,
-                            case: json!({"kind": "subgraph_merge", "n": n, "mask": mask, "enemies": enemy_sets[ei], "history": h, "desc": desc}),
-                        });
+        for (max_en, full_lens, pair_lens) in subs {
+            let enemy_sets: Vec<Vec<(usize, usize)>> = combi::subsets_upto(pairs.len(), max_en)
+                .into_iter()
+                .map(|s| s.into_iter().map(|i| pairs[i]).collect())
+                .collect();
+            let mut hists: Vec<Vec<(usize, usize)>> = vec![];
+            for l in full_lens.clone() {
+                hists.extend(combi::sequences(&full, l));
+            }
+            for l in pair_lens.clone() {
+                hists.extend(combi::sequences(&distinct, l));
+            }
+            info.push(json!({"n": n, "dags": dags.len(), "enemy_sets": enemy_sets.len(), "max_enemies": max_en,
+                "histories": hists.len(), "lengths_all_ops": format!("{full_lens:?}"), "lengths_distinct_pairs": format!("{pair_lens:?}")}));
+            let jobs: Vec<(u32, usize)> = dags.iter().flat_map(|&d| (0..enemy_sets.len()).map(move |e| (d, e))).collect();
+            let s = par_map(jobs.len(), ncpu().min(16), |j| {
+                let (mask, ei) = jobs[j];
+                let mut st = Stats::new();
+                st.nontrivial(&(n, mask, ei));
+                for h in &hists {
+                    // predecessor lists in descending order as a second iteration order (thorough, short histories)
+                    let modes: &[bool] = if thorough && h.len() <= 3 && mask.count_ones() >= 2 { &[false, true] } else { &[false] };
+                    for &desc in modes {
+                        st.eval();
+                        st.state();
+                        st.transition();
+                        st.trace();
+                        let (tag, v) = merge_case(n, mask, &enemy_sets[ei], h, desc);
+                        st.outcome(&tag);
+                        if j % 97 == 3 && h.len() == 3 && !desc {
+                            st.sample(|| json!({"section": "subgraph_merge", "n": n, "dag": edges_of(mask, n), "enemies": enemy_sets[ei], "history": h, "answers": tag}));
+                        }
+                        if let Some((key, what)) = v {
+                            viols.push(Viol {
+                                key,
+                                what,
+                                size: n * 1000 + h.len() * 100 + mask.count_ones() as usize,
+                                case: json!({"kind": "subgraph_merge", "n": n, "mask": mask, "enemies": enemy_sets[ei], "history": h, "desc": desc}),
+                            });
+                        }
                     }
                 }
-            }
-            st
-        });
-        total.merge(s);
+                st
+            });
+            total.merge(s);
+        }
     }
     (total, json!(info))
 }
@@ -520,7 +531,7 @@ pub fn run(rep: &mut Report, viols: &Viols) {
     let thorough = rep.thorough();
     rep.rule = "topo_sort: a case = (digraph on n nodes incl. self-loops, node iteration order, predecessor listing mode); distinct = distinct (n, edge set). SubgraphMerge: a case = (labelled DAG, symmetric enemy set, history of try_merge calls), every history rebuilt from scratch (no state dedup: hidden state cannot be revealed); distinct = (DAG, enemy set). UnionFind: a case = history of union/find/same_set over 4 keys; distinct = distinct answer patterns.".into();
     rep.explanation = "Real dfir_lang::graph::graph_algorithms::{topo_sort, SubgraphMerge} and dfir_lang::union_find::UnionFind executed on every case; compared with own Kahn acyclicity test, own partition model with enemy/quotient-cycle prediction of each try_merge answer, and invariants (contiguous groups = model classes, concatenation topological, no enemy pair inside a group, quotient acyclic, same_set == model) after every try_merge.".into();
-    rep.assume("try_merge(u,u) in the middle of length-4 histories (thorough) / length-3 on 4 nodes (quick) is not enumerated; it is enumerated at every position for shorter histories");
+    rep.assume("4-node DAGs: histories of the maximal length use only pairs u != v and enemy sets of size <= 1; shorter histories use every ordered pair incl. try_merge(u,u) and the full enemy bound (see bounds.subgraph_merge_plans)");
     rep.assume("cycle returned by topo_sort is accepted in either consistent direction (the statement only says 'genuine cycle')");
     rep.bound("topo_sort_max_nodes_all_orders", 4);
     rep.bound("topo_sort_n5_orders", if thorough { 3 } else { 0 });
